@@ -131,7 +131,7 @@ theorem invE_clientAppend {N s s' n cmd} (h : InvE N s) (hs : step N s (.clientA
     · exact nodeE_setNode (nodeE_same rfl rfl rfl rfl)
   · cases hs
 
-theorem invE_sendAppend {N s s' n dst prev k} (h : InvE N s) (hs : step N s (.sendAppend n dst prev k) = some s') : InvE N s' := by
+theorem invE_sendAppend {N s s' n dst prev k c} (h : InvE N s) (hs : step N s (.sendAppend n dst prev k c) = some s') : InvE N s' := by
   simp only [step] at hs
   split at hs
   · injection hs with hs; subst hs
@@ -140,7 +140,7 @@ theorem invE_sendAppend {N s s' n dst prev k} (h : InvE N s) (hs : step N s (.se
     · intro k; exact NodeE.refl _
   · cases hs
 
-theorem invE_sendSnapshot {N s s' n dst k} (h : InvE N s) (hs : step N s (.sendSnapshot n dst k) = some s') : InvE N s' := by
+theorem invE_sendSnapshot {N s s' n dst k c} (h : InvE N s) (hs : step N s (.sendSnapshot n dst k c) = some s') : InvE N s' := by
   simp only [step] at hs
   split at hs
   · injection hs with hs; subst hs
@@ -710,14 +710,14 @@ theorem invE_step {N : Nat} {s s' : State} {a : Action} (h : InvE N s) (hs : ste
   | recvReqVote n m => exact invE_recvReqVote h hs
   | recvVote n m => exact invE_recvVote h hs
   | clientAppend n cmd => exact invE_clientAppend h hs
-  | sendAppend n dst prev k => exact invE_sendAppend h hs
+  | sendAppend n dst prev k c => exact invE_sendAppend h hs
   | recvAppend n m => exact invE_recvAppend h hs
   | recvAck n m => exact invE_recvAck h hs
   | advanceCommit n i => exact invE_advanceCommit h hs
   | stepDown n => exact invE_stepDown h hs
   | apply n => exact invE_apply h hs
   | observeTerm n t => exact invE_observeTerm h hs
-  | sendSnapshot n dst k => exact invE_sendSnapshot h hs
+  | sendSnapshot n dst k c => exact invE_sendSnapshot h hs
   | recvSnapshot n m => exact invE_recvSnapshot h hs
   | lose m => exact invE_lose h hs
   | restart n c a => exact invE_restart h hs
